@@ -322,8 +322,14 @@ func valueCandsScenario(run *Run, sc *Scenario, offsets []int, max uint, prefill
 	// value may be expected to have): the model enumerates the reference candidates from them
 	tgtS := S(targetsS(sc.Main.Ctx.ReferenceTargets))
 	convS := S(convTableFor(sc.Main.Ctx.ReferenceTargets, sc.Main.Schema, sc.Main.Ctx.Functions))
+	// the return types of the functions: the model enumerates the function candidates from them
+	fr := List{}
+	for _, n := range sortedKeys(sc.Main.Ctx.Functions) {
+		fr = append(fr, L(Str(n), tyS(sc.Main.Ctx.Functions[n].ReturnType)))
+	}
+	fretS := S(fr)
 	if len(allTargets(sc.Main.Ctx.ReferenceTargets)) > 400 {
-		tgtS, convS = Atom("noref"), Atom("noref")
+		tgtS, convS, fretS = Atom("noref"), Atom("noref"), Atom("noref")
 	}
 	var wfFails []string
 	malformedParserRanges = 0
@@ -378,7 +384,7 @@ func valueCandsScenario(run *Run, sc *Scenario, offsets []int, max uint, prefill
 		if len(pairs) == 0 {
 			continue
 		}
-		run.Case("valuecands", []S{Bool(prefill), Int(int(max)), Str(string(sc.Src)), toks, dec, bodyS_, schS, exprs, opens, empties, vals, fsigsS(sc.Main.Ctx.Functions), parens, cparens, convS, tgtS, pairs}, T("allok"))
+		run.Case("valuecands", []S{Bool(prefill), Int(int(max)), Str(string(sc.Src)), toks, dec, bodyS_, schS, exprs, opens, empties, vals, fsigsS(sc.Main.Ctx.Functions), parens, cparens, convS, tgtS, fretS, pairs}, T("allok"))
 		run.Count("valuecands_files")
 		run.Res.Distribution["valuecands_positions"] += len(pairs)
 	}
@@ -472,6 +478,11 @@ func convTableFor(ts reference.Targets, sch *schema.BodySchema, funcs map[string
 	for _, t := range allTargets(ts) {
 		if t.Type != cty.NilType {
 			from[t.Type.GoString()] = t.Type
+		}
+	}
+	for _, f := range funcs {
+		if f.ReturnType != cty.NilType {
+			from[f.ReturnType.GoString()] = f.ReturnType
 		}
 	}
 	to := map[string]cty.Type{}
